@@ -1,2 +1,404 @@
-//! (placeholder - being written)
-pub fn run(_seed: u64, _thorough: bool) -> u64 { 0 }
+//! C15 engine-state level bounded check: "the unrealised PnL of an open position tracks the instrument's latest price".
+//!
+//! Drives the REAL `EngineState` (built by `eng::fresh_state`) through `update_from_account` (fills = trade account events) and
+//! `update_from_market` (PublicTrade / OrderBookL1 market events) - and, for half of the random histories, the REAL `Engine` of the
+//! eng.rs rig through `Engine::process` - with interleavings of fills and priced market events on several instruments of different
+//! exchanges. After EVERY delivery the engine is compared with an oracle written from the statement that keeps nothing but what was
+//! delivered:
+//!
+//!   current price(instrument)  = volume-weighted mid of the held top of book when both sides are present, else the last traded price
+//!                                (`InstrumentDataState::price` docs of the default market data); "held" = the delivered L1 / trade with
+//!                                the GREATEST exchange timestamp so far, of equal timestamps the FIRST delivered (market data rule of
+//!                                C09, see c09.rs); `time_received` plays no part
+//!   position(instrument)       = from the fills only: side, open quantity, peak quantity, cost basis of the open inventory (entry
+//!                                average = cost basis / open quantity, a reduce removes its pro-rata share), entry fees (a crossing
+//!                                fill's fee is split by quantity) - the cost-basis arithmetic of c02.rs, not the code under test
+//!   estimate(position, price)  = long (price - entry) * qty, short (entry - price) * qty, minus (qty / peak qty) * entry fees
+//!   mark(instrument)           = the price `pnl_unrealised` has to be evaluated at right now: after a market event (trade / L1) on an
+//!                                instrument with an open position and a current price: that current price; after a fill that keeps a
+//!                                position open: the fill price - until the next priced market event of that instrument
+//!
+//! Labels
+//!   C15.bounded.unrealised_at_current_price_after_market_event  pnl_unrealised == estimate(current price) once a priced market event was
+//!                                                               processed for the instrument (and stays so while OTHER instruments move)
+//!   C15.bounded.current_price_is_latest_by_exchange_time        `price()` of every instrument == the model's current price
+//!   C15.bounded.unrealised_at_fill_price_after_fill             pnl_unrealised == estimate(fill price) after an increasing / reducing fill
+//! Opening fills from flat and the remainder position of a flip are NOT checked after the fill (recorded known finding
+//! `C15.opening_fill.unrealised_at_fill_price`: the unchanged code stores 0); they are checked again from the next priced market event on.
+//! Tolerance 1e-12 (entry average and pro-rata fee shares are quotients; values < 1e6, Decimal carries 28 digits).
+use crate::{
+    eng::{self, Layout, Link, Rig, SetRisk, State, t, tenths},
+    report,
+    rng::Rng,
+};
+use barter::{
+    EngineEvent,
+    engine::{Processor, state::{instrument::data::InstrumentDataState, trading::TradingState}},
+    execution::AccountStreamEvent,
+};
+use barter_data::{
+    books::Level,
+    event::{DataKind, MarketEvent},
+    streams::consumer::MarketStreamEvent,
+    subscription::{book::OrderBookL1, trade::PublicTrade},
+};
+use barter_execution::{
+    AccountEvent, AccountEventKind,
+    order::id::{OrderId, StrategyId},
+    trade::{AssetFees, Trade, TradeId},
+};
+use barter_instrument::{Side, exchange::ExchangeIndex, instrument::InstrumentIndex};
+use rust_decimal::Decimal;
+use rust_decimal_macros::dec;
+use std::collections::HashSet;
+
+const L_MKT: &str = "C15.bounded.unrealised_at_current_price_after_market_event";
+const L_PRICE: &str = "C15.bounded.current_price_is_latest_by_exchange_time";
+const L_FILL: &str = "C15.bounded.unrealised_at_fill_price_after_fill";
+const TOL: Decimal = dec!(0.000000000001);
+
+// ------------------------------------------------------------------------------------------------- events
+/// (price, amount) of one side of the top of book
+type Lvl = Option<(i64, i64)>;
+#[derive(Clone, PartialEq)]
+enum Ev {
+    /// qty in tenths, fee in hundredths, t: the fill's own exchange time
+    Fill { i: usize, buy: bool, px: i64, qty: i64, fee: i64, t: i64 },
+    /// time_received = t + lat
+    Trade { i: usize, t: i64, lat: i64, px: i64 },
+    L1 { i: usize, t: i64, lat: i64, bid: Lvl, ask: Lvl },
+}
+impl Ev {
+    fn inst(&self) -> usize { match self { Ev::Fill { i, .. } | Ev::Trade { i, .. } | Ev::L1 { i, .. } => *i } }
+}
+impl std::fmt::Debug for Ev {
+    fn fmt(&self, f: &mut std::fmt::Formatter<'_>) -> std::fmt::Result {
+        let lvl = |l: &Lvl| match l { Some((p, a)) => format!("{p}x{a}"), None => "-".into() };
+        match self {
+            Ev::Fill { i, buy, px, qty, fee, t } => write!(f, "Fill(inst{i} {} {} @ {px} fee {} t_ex={t})", if *buy { "Buy" } else { "Sell" }, tenths(*qty), Decimal::new(*fee, 2)),
+            Ev::Trade { i, t, lat, px } => write!(f, "PublicTrade(inst{i} px={px} t_ex={t} t_recv={})", t + lat),
+            Ev::L1 { i, t, lat, bid, ask } => write!(f, "L1(inst{i} bid={} ask={} t_ex={t} t_recv={})", lvl(bid), lvl(ask), t + lat),
+        }
+    }
+}
+
+enum Real { Market(MarketEvent<InstrumentIndex, DataKind>), Account(AccountEvent) }
+
+/// k: delivery counter (unique trade ids)
+fn real(lay: &Layout, ev: &Ev, k: usize) -> Real {
+    let market = |i: usize, ts: i64, lat: i64, kind: DataKind| MarketEvent { time_exchange: t(ts), time_received: t(ts + lat), exchange: lay.ex_ids[lay.inst_ex[i]], instrument: InstrumentIndex(i), kind };
+    let level = |l: &Lvl| l.map(|(p, a)| Level::new(Decimal::from(p), Decimal::from(a)));
+    match ev {
+        Ev::Trade { i, t: ts, lat, px } => Real::Market(market(*i, *ts, *lat, DataKind::Trade(PublicTrade { id: format!("p{k}"), price: *px as f64, amount: 1.0, side: if k % 2 == 0 { Side::Buy } else { Side::Sell } }))),
+        Ev::L1 { i, t: ts, lat, bid, ask } => Real::Market(market(*i, *ts, *lat, DataKind::OrderBookL1(OrderBookL1 { last_update_time: t(*ts), best_bid: level(bid), best_ask: level(ask) }))),
+        Ev::Fill { i, buy, px, qty, fee, t: ts } => Real::Account(AccountEvent {
+            exchange: ExchangeIndex(lay.inst_ex[*i]),
+            kind: AccountEventKind::Trade(Trade {
+                id: TradeId::new(format!("f{k}")), order_id: OrderId::new(format!("of{k}")), instrument: InstrumentIndex(*i), strategy: StrategyId::new("s"), time_exchange: t(*ts),
+                side: if *buy { Side::Buy } else { Side::Sell }, price: Decimal::from(*px), quantity: tenths(*qty), fees: AssetFees::quote_fees(Decimal::new(*fee, 2)),
+            }),
+        }),
+    }
+}
+
+/// the system under test: the engine state on its own (cloneable: exhaustive search) or inside the eng.rs engine rig
+enum Sut { State(State), Engine(Box<Rig<SetRisk>>) }
+impl Sut {
+    fn state(&self) -> &State { match self { Sut::State(s) => s, Sut::Engine(r) => &r.engine.state } }
+    fn deliver(&mut self, lay: &Layout, ev: &Ev, k: usize) {
+        match (self, real(lay, ev, k)) {
+            (Sut::State(s), Real::Market(m)) => s.update_from_market(&m),
+            (Sut::State(s), Real::Account(a)) => { let _ = s.update_from_account(&a); }
+            (Sut::Engine(r), Real::Market(m)) => { let _ = r.engine.process(EngineEvent::Market(MarketStreamEvent::Item(m))); }
+            (Sut::Engine(r), Real::Account(a)) => { let _ = r.engine.process(EngineEvent::Account(AccountStreamEvent::Item(a))); }
+        }
+    }
+    fn name(&self) -> &'static str { match self { Sut::State(_) => "EngineState::update_from_account / update_from_market", Sut::Engine(_) => "Engine::process (eng.rs rig, trading disabled)" } }
+}
+
+// ------------------------------------------------------------------------------------------------- oracle
+#[derive(Clone, Debug)]
+struct MPos { long: bool, qty: Decimal, max: Decimal, cost: Decimal, fees_enter: Decimal }
+impl MPos {
+    fn entry(&self) -> Decimal { self.cost / self.qty }
+    /// the documented estimate: price move on the open quantity minus pro-rata estimated exit fees
+    fn estimate(&self, price: Decimal) -> Decimal {
+        let mv = if self.long { (price - self.entry()) * self.qty } else { (self.entry() - price) * self.qty };
+        mv - (self.qty / self.max) * self.fees_enter
+    }
+    fn show(&self) -> String { format!("{} qty={} peak={} entry_average={} fees_enter={}", if self.long { "LONG" } else { "SHORT" }, self.qty, self.max, self.entry(), self.fees_enter) }
+}
+#[derive(Clone, Copy, Debug, PartialEq, Eq)]
+enum FillKind { Open, Increase, Reduce, Close, Flip }
+#[derive(Clone, Copy, Debug, PartialEq)]
+enum MarkBy { Market, Fill }
+
+#[derive(Clone, Default)]
+struct MInst {
+    /// delivered public trades (exchange time, price) / books (exchange time, bid, ask), in delivery order
+    trades: Vec<(i64, i64)>,
+    books: Vec<(i64, Lvl, Lvl)>,
+    pos: Option<MPos>,
+    /// price the unrealised PnL has to be evaluated at, who set it, at which delivery
+    mark: Option<(Decimal, MarkBy, usize)>,
+}
+/// the delivered item with the greatest exchange timestamp; of equal timestamps the FIRST delivered (C09 rule for market data)
+fn newest<T: Copy>(v: &[T], time: impl Fn(&T) -> i64) -> Option<T> {
+    let mut best: Option<T> = None;
+    for x in v { best = match best { None => Some(*x), Some(b) => if time(x) > time(&b) { Some(*x) } else { Some(b) } }; }
+    best
+}
+impl MInst {
+    fn price(&self) -> Option<Decimal> {
+        if let Some((_, Some((b, ba)), Some((a, aa)))) = newest(&self.books, |x| x.0) {
+            // micro-price: each side's price weighted with the OTHER side's amount
+            return Some((Decimal::from(b) * Decimal::from(aa) + Decimal::from(a) * Decimal::from(ba)) / (Decimal::from(ba) + Decimal::from(aa)));
+        }
+        newest(&self.trades, |x| x.0).map(|x| Decimal::from(x.1))
+    }
+    fn fill(&mut self, buy: bool, px: Decimal, qty: Decimal, fee: Decimal) -> FillKind {
+        let fresh = |q: Decimal, f: Decimal| MPos { long: buy, qty: q, max: q, cost: px * q, fees_enter: f };
+        let Some(mut p) = self.pos.take() else { self.pos = Some(fresh(qty, fee)); return FillKind::Open; };
+        if p.long == buy {
+            p.cost += px * qty;
+            p.qty += qty;
+            if p.qty > p.max { p.max = p.qty; }
+            p.fees_enter += fee;
+            self.pos = Some(p);
+            FillKind::Increase
+        } else if qty < p.qty {
+            p.cost = p.cost * (p.qty - qty) / p.qty;
+            p.qty -= qty;
+            self.pos = Some(p);
+            FillKind::Reduce
+        } else if qty == p.qty {
+            FillKind::Close
+        } else {
+            let rest = qty - p.qty;
+            self.pos = Some(fresh(rest, fee * rest / qty));
+            FillKind::Flip
+        }
+    }
+}
+
+#[derive(Clone)]
+struct Model { inst: Vec<MInst> }
+impl Model {
+    fn new(lay: &Layout) -> Self { Model { inst: vec![MInst::default(); lay.n_inst] } }
+    /// k: delivery number (1-based)
+    fn apply(&mut self, ev: &Ev, k: usize) -> Option<FillKind> {
+        let m = &mut self.inst[ev.inst()];
+        match ev {
+            Ev::Trade { t, px, .. } => m.trades.push((*t, *px)),
+            Ev::L1 { t, bid, ask, .. } => m.books.push((*t, *bid, *ask)),
+            Ev::Fill { buy, px, qty, fee, .. } => {
+                let kind = m.fill(*buy, Decimal::from(*px), tenths(*qty), Decimal::new(*fee, 2));
+                m.mark = match kind {
+                    FillKind::Increase | FillKind::Reduce => Some((Decimal::from(*px), MarkBy::Fill, k)),
+                    // opening fill / remainder of a flip: known finding (stores 0), not asserted; nothing open after an exact close
+                    FillKind::Open | FillKind::Flip | FillKind::Close => None,
+                };
+                return Some(kind);
+            }
+        }
+        // a priced market event was processed: an open position is marked at the instrument's current price
+        if let (Some(_), Some(price)) = (&m.pos, m.price()) { m.mark = Some((price, MarkBy::Market, k)); }
+        None
+    }
+}
+
+// ------------------------------------------------------------------------------------------------- checking
+struct Ctx<'a> { lay: &'a Layout, seen: &'a mut HashSet<&'static str>, cases: u64 }
+
+fn near(a: Decimal, b: Decimal) -> bool { (a - b).abs() <= TOL }
+fn show_px(p: &Option<Decimal>) -> String { p.map(|p| p.to_string()).unwrap_or("None".into()) }
+
+/// compares engine and oracle on every instrument after the last delivery of `trace`; true iff everything agrees
+fn check(cx: &mut Ctx, state: &State, m: &Model, via: &str, trace: &[Ev]) -> bool {
+    let lay = cx.lay;
+    let k = trace.len();
+    let last = &trace[k - 1];
+    let mut fails: Vec<(&'static str, String, String)> = vec![];
+    for j in 0..lay.n_inst {
+        let (mi, si) = (&m.inst[j], state.instruments.instrument_index(&InstrumentIndex(j)));
+        let (got_px, exp_px) = (si.data.price(), mi.price());
+        let px_ok = match (got_px, exp_px) { (None, None) => true, (Some(a), Some(b)) => near(a, b), _ => false };
+        if !px_ok {
+            fails.push((L_PRICE,
+                format!("price() of inst{j} = {} (held: last_traded_price={:?} l1=(bid {:?} ask {:?} @t={}))", show_px(&got_px), si.data.last_traded_price.as_ref().map(|x| (x.value, x.time.timestamp() - 1_700_000_000)), si.data.l1.best_bid.map(|l| (l.price, l.amount)), si.data.l1.best_ask.map(|l| (l.price, l.amount)), si.data.l1.last_update_time.timestamp() - 1_700_000_000),
+                format!("{} = volume-weighted mid of the L1 with the greatest exchange time delivered so far {:?} when two-sided, else the public trade with the greatest exchange time {:?} (equal times: first delivered)", show_px(&exp_px), newest(&mi.books, |x| x.0), newest(&mi.trades, |x| x.0))));
+        }
+        let (Some(pos), Some((price, by, at))) = (&mi.pos, mi.mark) else { continue; };
+        let exp = pos.estimate(price);
+        let label = match by { MarkBy::Market => L_MKT, MarkBy::Fill => L_FILL };
+        let why = match by {
+            MarkBy::Market => format!("current price of inst{j} since priced market event #{at} {:?}", trace[at - 1]),
+            MarkBy::Fill => format!("fill price of #{at} {:?}, no priced market event for inst{j} since", trace[at - 1]),
+        };
+        match &si.position.current {
+            None => fails.push((label, format!("inst{j}: no open position in the engine"), format!("open position {} with pnl_unrealised {exp} = estimate at {price} ({why})", pos.show()))),
+            Some(p) => if !near(p.pnl_unrealised, exp) {
+                fails.push((label,
+                    format!("inst{j}: pnl_unrealised={} (engine position: {:?} qty={} peak={} entry_average={} fees_enter={}; engine price()={})", p.pnl_unrealised, p.side, p.quantity_abs, p.quantity_abs_max, p.price_entry_average, p.fees_enter.fees, show_px(&got_px)),
+                    format!("{exp} = estimate at {price} ({why}); model position {}", pos.show())));
+            },
+        }
+    }
+    let ok = fails.is_empty();
+    for (label, obs, exp) in fails {
+        if cx.seen.insert(label) {
+            report(label, format!("via {via}; instruments {:?}; deliveries in order: {trace:?}", (0..lay.n_inst).map(|i| format!("inst{i}@{}", lay.ex_ids[lay.inst_ex[i]].as_str())).collect::<Vec<_>>()), format!("after delivery #{k} {last:?}: {obs}"), exp);
+        }
+    }
+    ok
+}
+
+/// every sequence (with repetition) of exactly `remaining` more deliveries from `alphabet` (prefixes shared), oracle consulted after the
+/// last delivery only: `explore` deepens the bound one by one, so every prefix was checked before and witnesses are as short as possible
+fn dfs(cx: &mut Ctx, state: &State, m: &Model, alphabet: &[Ev], remaining: usize, trace: &mut Vec<Ev>) -> bool {
+    let mut all_ok = true;
+    for ev in alphabet {
+        let (mut s2, mut m2) = (Sut::State(state.clone()), m.clone());
+        trace.push(ev.clone());
+        s2.deliver(cx.lay, ev, trace.len());
+        m2.apply(ev, trace.len());
+        if remaining == 1 {
+            cx.cases += 1;
+            all_ok &= check(cx, s2.state(), &m2, s2.name(), trace);
+        } else {
+            all_ok &= dfs(cx, s2.state(), &m2, alphabet, remaining - 1, trace);
+        }
+        trace.pop();
+    }
+    all_ok
+}
+fn explore(lay: &Layout, seen: &mut HashSet<&'static str>, alphabet: &[Ev], depth: usize) -> u64 {
+    let state = eng::fresh_state(lay, TradingState::Disabled);
+    let m = Model::new(lay);
+    let mut cx = Ctx { lay, seen, cases: 0 };
+    // a failing sequence ends the group (its extensions say nothing new)
+    for bound in 1..=depth { if !dfs(&mut cx, &state, &m, alphabet, bound, &mut vec![]) { break; } }
+    cx.cases
+}
+
+// ------------------------------------------------------------------------------------------------- alphabets
+fn fill(i: usize, buy: bool, px: i64, qty: i64, fee: i64, t: i64) -> Ev { Ev::Fill { i, buy, px, qty, fee, t } }
+fn trade(i: usize, t: i64, lat: i64, px: i64) -> Ev { Ev::Trade { i, t, lat, px } }
+fn l1(i: usize, t: i64, lat: i64, bid: Lvl, ask: Lvl) -> Ev { Ev::L1 { i, t, lat, bid, ask } }
+
+/// i: an instrument, j: an instrument of ANOTHER exchange
+fn alphabets(i: usize, j: usize) -> Vec<Vec<Ev>> {
+    vec![
+        // trades only; receive latency (5) larger than the gaps between exchange times; equal and older exchange times; fills stamped
+        // later than the market data that follows them; open / increase / reduce / exact close / flip depending on what is open
+        vec![
+            fill(i, true, 100, 10, 100, 6), fill(i, false, 104, 5, 50, 9), fill(i, false, 110, 20, 100, 4),
+            trade(i, 3, 5, 100), trade(i, 5, 5, 105), trade(i, 5, 0, 96), trade(i, 7, 1, 110), trade(i, 1, 0, 90),
+        ],
+        // top of book (two-sided, one-sided, weighted) + trades; the mid of the first book equals the entry price
+        vec![
+            fill(i, true, 100, 20, 100, 5), fill(i, false, 102, 10, 0, 2), fill(i, true, 106, 10, 100, 8),
+            l1(i, 4, 3, Some((99, 1)), Some((101, 1))), l1(i, 6, 1, Some((104, 1)), Some((106, 3))), l1(i, 6, 0, Some((103, 2)), None), l1(i, 2, 9, Some((97, 2)), Some((99, 1))),
+            trade(i, 5, 3, 103),
+        ],
+        // short side first; books that lose a side (price falls back to the last trade) and get it back
+        vec![
+            fill(i, false, 100, 10, 25, 3), fill(i, false, 96, 20, 25, 7), fill(i, true, 98, 15, 30, 5),
+            l1(i, 2, 0, Some((101, 3)), Some((103, 1))), l1(i, 4, 6, None, Some((100, 1))), l1(i, 8, 0, Some((95, 1)), Some((97, 1))),
+            trade(i, 1, 4, 100), trade(i, 4, 4, 94),
+        ],
+        // two instruments on different exchanges, same prices / times: a mark of one must not leak into the other
+        vec![
+            fill(i, true, 100, 10, 100, 5), fill(j, false, 100, 10, 100, 5), fill(i, true, 104, 10, 0, 7), fill(j, true, 98, 5, 10, 3),
+            trade(i, 4, 3, 105), trade(j, 4, 3, 95), trade(i, 6, 0, 100), trade(j, 6, 0, 100), l1(j, 5, 2, Some((101, 1)), Some((103, 1))),
+        ],
+    ]
+}
+
+// ------------------------------------------------------------------------------------------------- random histories
+struct Gen { insts: Vec<usize>, trades_only: Vec<bool>, mclk: Vec<i64>, pos: Vec<i64> }
+impl Gen {
+    fn event(&mut self, rng: &mut Rng, kinds: &mut [u64; 5]) -> Ev {
+        let n = rng.below(self.insts.len() as u64) as usize;
+        let i = self.insts[n];
+        if rng.chance(2, 5) {
+            // fill: own exchange time around the instrument's market clock (sometimes later than the market data that follows)
+            let ts = (self.mclk[n] + rng.below(10) as i64 - 3).max(0);
+            let open = self.pos[n];
+            let q = [5, 10, 10, 15, 20, 30][rng.below(6) as usize];
+            let (buy, qty, kind) = if open == 0 { (rng.chance(1, 2), q, 0) } else {
+                let long = open > 0;
+                match rng.below(9) {
+                    0..=2 => (long, q, 1),
+                    3..=5 if open.abs() > 5 => (!long, 5 * (1 + rng.below((open.abs() / 5 - 1) as u64) as i64), 2),
+                    6 => (!long, open.abs(), 3),
+                    7..=8 => (!long, open.abs() + q, 4),
+                    _ => (long, q, 1),
+                }
+            };
+            kinds[kind] += 1;
+            self.pos[n] += if buy { qty } else { -qty };
+            return fill(i, buy, [98, 100, 100, 102, 104][rng.below(5) as usize], qty, [0, 25, 100, 130][rng.below(4) as usize], ts);
+        }
+        // market event: increasing / equal / older exchange time; latency sometimes larger than the gap to the next exchange time
+        let ts = match rng.below(20) {
+            0..=9 => { self.mclk[n] += 1 + rng.below(3) as i64; self.mclk[n] }
+            10..=12 => self.mclk[n],
+            _ => (self.mclk[n] - 1 - rng.below(5) as i64).max(0),
+        };
+        let lat = [0, 0, 1, 2, 4, 8][rng.below(6) as usize];
+        if self.trades_only[n] || rng.chance(1, 2) { return trade(i, ts, lat, 94 + 2 * rng.below(8) as i64); }
+        let b = 95 + rng.below(10) as i64;
+        let (ba, aa) = (1 + rng.below(3) as i64, 1 + rng.below(3) as i64);
+        let (bid, ask) = match rng.below(16) { 0..=1 => (Some((b, ba)), None), 2..=3 => (None, Some((b + 2, aa))), 4 => (None, None), _ => (Some((b, ba)), Some((b + [1, 2, 2, 4][rng.below(4) as usize], aa))) };
+        l1(i, ts, lat, bid, ask)
+    }
+}
+
+pub fn run(seed: u64, thorough: bool) -> u64 {
+    let lay = eng::layout();
+    let mut seen: HashSet<&'static str> = HashSet::new();
+    let mut n = 0u64;
+    // one instrument per exchange + a second one of the last exchange
+    let per_ex: Vec<usize> = lay.ex_insts.iter().map(|v| v[0]).collect();
+    assert!(per_ex.len() >= 3 && lay.ex_insts[2].len() >= 2, "layout");
+
+    // --- exhaustive: every sequence with repetition up to the bound, per alphabet, on instruments of different exchanges
+    let depth = if thorough { 6 } else { 5 };
+    for (i, j) in [(per_ex[0], per_ex[2]), (per_ex[1], per_ex[0])] {
+        for alphabet in alphabets(i, j) {
+            let d = if alphabet.len() > 8 { depth - 1 } else { depth };
+            n += explore(&lay, &mut seen, &alphabet, d);
+        }
+    }
+
+    // --- seeded random: 2..4 instruments on >= 2 exchanges (some with trades only), long histories, alternately on the bare engine state
+    //     and through Engine::process
+    let mut rng = Rng::seeded(seed, 15);
+    let mut kinds = [0u64; 5];
+    for h in 0..if thorough { 400_000 } else { 40_000 } {
+        let mut insts = vec![per_ex[rng.below(3) as usize]];
+        let other = per_ex.iter().copied().filter(|x| *x != insts[0]).collect::<Vec<_>>();
+        insts.push(other[rng.below(2) as usize]);
+        if rng.chance(1, 2) { insts.push(lay.ex_insts[2][1]); }
+        if rng.chance(1, 3) { let x = *other.iter().find(|x| !insts.contains(x)).unwrap(); insts.push(x); }
+        let k = insts.len();
+        let mut g = Gen { trades_only: (0..k).map(|_| rng.chance(1, 3)).collect(), insts, mclk: (0..k).map(|_| rng.below(4) as i64).collect(), pos: vec![0; k] };
+        let mut sut = if h % 2 == 0 { Sut::State(eng::fresh_state(&lay, TradingState::Disabled)) } else { Sut::Engine(Box::new(eng::build(&lay, [Link::Healthy; eng::N_EX], TradingState::Disabled, SetRisk::default()))) };
+        let mut m = Model::new(&lay);
+        let mut cx = Ctx { lay: &lay, seen: &mut seen, cases: 0 };
+        let mut trace: Vec<Ev> = vec![];
+        let span = if rng.chance(1, 4) { 60 } else { 20 };
+        for _ in 0..6 + rng.below(span) {
+            let ev = g.event(&mut rng, &mut kinds);
+            trace.push(ev.clone());
+            sut.deliver(&lay, &ev, trace.len());
+            m.apply(&ev, trace.len());
+            cx.cases += 1;
+            if !check(&mut cx, sut.state(), &m, sut.name(), &trace) { break; }
+        }
+        n += cx.cases;
+    }
+    if std::env::var("VX_C15E_STATS").is_ok() { eprintln!("random fills by kind [open, increase, reduce, close, flip] = {kinds:?}"); }
+    n
+}
